@@ -320,9 +320,17 @@ def run(ctx):
                 nsd = dict(DEFAULT_NS)
                 cfg['ns_dict'] = nsd
                 sp = []
+                pre_ex = "ex"
+                if rng.random() < 0.3:
+                    # the namespace of the classes under a prefix with a hyphen / a dot (legal PN_PREFIX: dbpedia-owl:, my.ns:)
+                    pre_ex = rng.choice(["dbpedia-owl", "my.ns", "ex-2", "e_x"])
+                    for k_ in [k_ for k_, v_ in nsd.items() if k_ == EX]:
+                        nsd[k_] = pre_ex
+                    if EX not in nsd:
+                        nsd[EX] = pre_ex
                 for c in cfg['targets']:
                     r = rng.random()
-                    sp.append(c if r < 0.34 else "<%s>" % c if r < 0.67 else ("ex:" + c[len(EX):] if c.startswith(EX) else c))
+                    sp.append(c if r < 0.34 else "<%s>" % c if r < 0.67 else (pre_ex + ":" + c[len(EX):] if c.startswith(EX) else c))
                 if rng.random() < 0.3:
                     # class IRIs of the scheme urn: while the caller also declares a prefix named 'urn': a <bracketed> class is a full IRI and
                     # must not be read as the prefixed name urn: + C0 (the unbracketed spelling would be ambiguous, so it is not used here)
